@@ -25,8 +25,8 @@ RULE = (
     'in running or gitting with transitioning == active; is_pipeline_active() <=> state running and transitioning '
     'active, and never while a load / reload / archive / introspection step is outstanding; leaving archiving '
     'returns to the state it was entered from; at the end every outstanding step is completed and the machine must '
-    'be at rest. Raw firing of a documented-edge trigger while a life-cycle step is outstanding is something no '
-    'call site does: after it only the edge, side-effect and activity clauses are judged. non-trivial = sequence in '
+    'be at rest. A raw trigger that arrives while a life-cycle step is outstanding is not allowed whatever the edges say: '
+    'it must be refused with nothing changed (before fix 6554045 it moved the state and then raised); wired calls never raise. non-trivial = sequence in '
     'which a call arrived while a background step was outstanding; distinct = hash(sequence)'
 )
 ASSUMPTIONS = [
@@ -165,8 +165,9 @@ class Run:
                 sim.submit(op[1], ok=op[2], api=op[3])
             elif kind == 'raw':
                 allowed = any((fsm.state, op[1]) == (s, t) for s, t, _d in fsmsim.EDGES)
-                if outstanding and allowed:
-                    self.legit = False
+                if outstanding:
+                    # a trigger arriving while a background step is outstanding is not allowed, whatever the edges say
+                    allowed = False
                 if not self.booted and op[1] == 'starting_trigger':
                     self.booted = True
                 getattr(fsm, op[1])()
@@ -174,6 +175,8 @@ class Run:
             exc = e
         except Exception as e:  # pylint: disable=broad-exception-caught
             exc = e
+        if kind == 'raw' and not allowed and exc is None:
+            self.bad.append(('rejected-without-side-effects', f'{op} is not allowed in state {before[0]} with steps {outstanding} outstanding, but was not refused (now {after[:2]})'))
         if outstanding and kind != 'complete':
             self.nontrivial = True
         after = sim.snapshot()
@@ -195,9 +198,11 @@ class Run:
             if isinstance(exc, transitions.MachineError):
                 res.count('machine_errors')
             # "a trigger that is not allowed in the current state is rejected without side effects"
+            # (also for a documented-edge trigger that is refused because a background step is outstanding:
+            # whatever is refused must be refused before anything changed)
             if before != after and kind == 'raw' and not allowed:
                 self.bad.append(('rejected-without-side-effects', f'{op} raised {type(exc).__name__} ({exc}) but the observable state changed {before} -> {after}'))
-            elif kind != 'raw' and not isinstance(exc, transitions.MachineError) and self.legit:
+            elif kind != 'raw' and self.legit:
                 self.bad.append(('wired-call-completes', f'{op} raised {type(exc).__name__}: {exc} (state {before[:3]})'))
         # (3) rest
         life = [n for n in sim.outstanding() if n in LIFE_STEPS]
@@ -228,6 +233,13 @@ class Run:
             else:
                 self.apply(('poll',))
             if self.bad:
+                return
+        # a submission that is refused (or fails) is answered and releases the front end's busy flag: a trigger
+        # refused on its behalf must not leave the request hanging
+        for req in sim.requests:
+            self.res.count('submissions_followed')
+            if not req.finished or len(req.cleared) != 1:
+                self.bad.append(('submission-answered', f'submission {req.what}: every step has completed but request finished={req.finished}, busy flag released {len(req.cleared)}x'))
                 return
         if sim.rx.parked:
             self.bad.append(('returns-to-rest', f'background steps keep being spawned: {sim.outstanding()}'))
@@ -273,7 +285,11 @@ def run_bfs(spec, res, sim):
     reported = set()
     while frontier and depth < spec['depth'] and (res.elapsed() < spec['budget'] * 1.4 or depth < 4):
         nxt = []
+        partial = False
         for seq in frontier:
+            if depth >= 4 and res.elapsed() > spec['budget'] * 1.6:
+                partial = True  # this level is not finished: it does not count as exhaustive
+                break
             for op in ops:
                 cand = seq + [list(op)]
                 r, key = run_sequence(sim, cand, res)
@@ -286,9 +302,12 @@ def run_bfs(spec, res, sim):
                 if key not in seen and not r.bad:
                     seen.add(key)
                     nxt.append(cand)
+        res.count('bfs_states', len(nxt))
+        if partial:
+            res.extra['bfs_partial_level'] = depth + 1
+            break
         depth += 1
         frontier = nxt
-        res.count('bfs_states', len(nxt))
     res.extra['bfs_depth_completed'] = depth
     res.extra['exhaustive_to_depth'] = depth
     res.count('evaluations', res.counters.get('sequences', 0))
